@@ -32,9 +32,12 @@ def keep(pid, wt, name, needs):
     assert '233 passed' in suite, suite
     rc1, out1 = sh('/venv/bin/python %s' % demo, cwd=wt, env=env)
     assert rc1 != 0, 'demo does not fail with the change: ' + out1[-500:]
-    rc, _ = sh('git stash', cwd=wt)
+    # no `git stash`: the stash is shared by all worktrees of /repo
+    rc, o = sh('git apply -R %s' % patch, cwd=wt)
+    assert rc == 0, o
     rc0, out0 = sh('/venv/bin/python %s' % demo, cwd=wt, env=env)
-    sh('git stash pop', cwd=wt)
+    rc, o = sh('git apply %s' % patch, cwd=wt)
+    assert rc == 0, o
     assert rc0 == 0, 'demo does not pass without the change: ' + out0[-500:]
     d = os.path.join(VERIF, 'seeded', name)
     os.makedirs(d, exist_ok=True)
